@@ -10,6 +10,11 @@ the model order):
   T  tests and means: evaluation arrays of 2-5 dimensions x every subset of <= 4 NaN samples x
      noise-ceiling form x dof x test type: p in [0,1], symmetric pairwise matrix with unit
      diagonal, get_means == NaN-aware mean, SEM >= 0, equivariance of every output.
+     NaN pattern menu for arrays with several samples and >= 3 dimensions: whole samples (every subset),
+     one fold of one sample, one repetition of one fold, a single entry of one model, and the latter two
+     missing in EVERY sample; get_means and all three t-test families must use the same per-model means
+     (reference: NaN-aware mean one axis at a time, last axis first, then the evaluable samples), and
+     the mean implied by test_zero must reproduce test_noise / test_pairwise (t-family consistency).
   F  eval_fixed: SEM and the three p-value families against scipy.stats.ttest_rel / ttest_1samp
      on the per-subject evaluations (real eval_fixed on RDM alphabets, and eval_fixed with the
      names `compare` / `boot_noise_ceiling` imported into inference.evaluate replaced so that
@@ -66,7 +71,9 @@ ASSUMPTIONS = [
     'covariance the smaller one (in-code documentation "uncorrected dual bootstrap")',
     'dual-bootstrap 3-stacks are judged by the bounds of the statement and by "combination of the three '
     'layer contrasts" (the library\'s own combination of three scalars, which is itself bound-checked)',
-    'NaN samples = whole bootstrap samples (all models) or, for 1 x model x subject arrays, whole subjects',
+    'NaN samples = whole bootstrap samples (all models) or, for 1 x model x subject arrays, whole subjects; '
+    'plus the uneven NaN pattern menu (one fold / one repetition / one entry), for which the NaN-aware mean is '
+    'the mean of means that Result.get_means documents (further axes first, then samples)',
     'rank-sum tests only for 3-D evaluations (asserted by the library); bootstrap tests need >= 2 samples',
     'covariance inputs are symmetric (possibly indefinite in the alphabets)',
     't-test p-values in general (documented in t_tests / t_test_0 / t_test_nc): mean difference / mean / '
@@ -671,6 +678,10 @@ def build_evaluations(case, seed):
             ev[(sidx, slice(None), 0, shape[3] - 1)] = np.nan
         elif pat == 'model':
             ev[(sidx, m - 1) + (0,) * (len(shape) - 2)] = np.nan
+        elif pat == 'rep-all':      # the same repetition of the same fold missing in EVERY sample
+            ev[(slice(None), slice(None), 0, shape[3] - 1)] = np.nan
+        elif pat == 'model-all':    # the same entry of one model missing in every sample
+            ev[(slice(None), m - 1) + (0,) * (len(shape) - 3) + (shape[-1] - 1,)] = np.nan
         else:
             raise ValueError(pat)
     ncf = case.get('ncf', 'fixed')
@@ -754,7 +765,7 @@ def run_T(case, ctx):
                       variances=ref.permute_cov(cov, perm, m), dof=dof, n_rdm=n_rdm, n_pattern=n_pattern)
 
     if case.get('nanpat'):
-        cfg['nan'] = 'uneven'
+        cfg['nan'] = 'same-in-every-sample' if case['nanpat'].endswith('-all') else 'uneven'
     ident = tuple(range(m))
     with ctx.guard('Result.__init__|var=%s' % cfg['var'], case):
         R = make(ident)
@@ -1662,7 +1673,7 @@ def run_shard(shard, ctx):
                 masks = masks[a::b]
             if 'ranksum' not in shard['types'] and shape[0] >= 2 and len(shape) >= 3:
                 # NaN entries spread unevenly over the further axes (mean of means != pooled mean)
-                for pat in ['fold', 'model'] + (['rep'] if len(shape) >= 4 else []):
+                for pat in ['fold', 'model', 'model-all'] + (['rep', 'rep-all'] if len(shape) >= 4 else []):
                     for i, vc in enumerate(shard['vcs'][:2]):
                         run_case({'fam': 'T', 'shape': shape, 'mask': [], 'nanpat': pat, 'ncf': shard['ncf'],
                                   'vc': vc, 'types': shard['types'], 'vals': ['B', shard['fill']], 'vfill': i % 2}, ctx)
